@@ -1112,3 +1112,60 @@ Proof.
   destruct (is_kwlike (cur (next ts)) "SEARCH"); [intros H; inversion H as [H1]; exact (parse_alter_search_index_nofuel _ _ H1)|].
   destruct (other_alter (cur (next ts))); discriminate.
 Qed.
+
+(* C05 on the family: the first field of the node of an accepted statement is the position of the statement's first token (for all
+   twenty-four node types Pos() is that field) *)
+Lemma parse_row_pos pos r ts d r' : parse_row pos r ts = Ok (d, r') -> exists ty fs, d = DNode ty (FPos pos :: fs).
+Proof.
+  unfold parse_row. destruct (expect_words (r_words r) ts 0) as [[lp a]| | |]; cbn [bind]; try discriminate.
+  destruct (if r_ifexists r then if_exists a else Ok (false, a)) as [[ie b]| | |]; cbn [bind]; try discriminate.
+  destruct (r_name r).
+  - intros H. inversion H; subst. eauto.
+  - destruct (parse_ident b) as [[i c]| | |]; cbn [bind]; try discriminate. intros H. inversion H; subst. cbn [app]. eauto.
+  - destruct (parse_path b) as [[ids c]| | |]; cbn [bind]; try discriminate. intros H. inversion H; subst. cbn [app]. eauto.
+Qed.
+
+Theorem ddl_body_pos ts d r : ddl_body ts = Some (Ok (d, r)) -> exists ty fs, d = DNode ty (FPos (ppos (cur ts)) :: fs).
+Proof.
+  unfold ddl_body. destruct (kis (cur ts) "CREATE").
+  { destruct (find_row create_rows (cur (next ts))) as [rw|].
+    - intros H. inversion H as [H1]. exact (parse_row_pos _ _ _ _ _ H1).
+    - destruct (kis (cur (next ts)) "PROTO"); [|destruct (other_create (cur (next ts))); discriminate].
+      unfold parse_create_bundle. destruct (expect "PROTO" (next ts)) as [[x a]| | |]; cbn [bind]; try discriminate.
+      destruct (expect_kw "BUNDLE" a) as [[y b]| | |]; cbn [bind]; try discriminate.
+      destruct (bundle_types b) as [[tys c]| | |]; cbn [bind]; try discriminate. intros H. inversion H; subst. eauto. }
+  destruct (is_kwlike (cur ts) "DROP").
+  { destruct (find_row drop_rows (cur (next ts))) as [rw|]; [|discriminate].
+    intros H. inversion H as [H1]. exact (parse_row_pos _ _ _ _ _ H1). }
+  destruct (is_kwlike (cur ts) "ANALYZE").
+  { destruct (expect_kw "ANALYZE" ts) as [[a ts1]| | |] eqn:E; cbn [bind]; try discriminate. intros H. inversion H; subst.
+    unfold expect_kw in E. destruct (expect K_ident ts) as [[t0 r0]| | |] eqn:E0; cbn [bind] in E; try discriminate.
+    apply expect_ok in E0 as (_ & -> & ->). destruct (is_kwlike (cur ts) "ANALYZE"); inversion E; subst. eauto. }
+  destruct (is_kwlike (cur ts) "RENAME").
+  { unfold parse_rename. destruct (expect_kw "TABLE" (next ts)) as [[a ts1]| | |]; cbn [bind]; try discriminate.
+    destruct (comma_list rename_to ts1) as [[l ts2]| | |]; cbn [bind]; try discriminate. intros H. inversion H; subst. eauto. }
+  assert (G : forall rv ts0, parse_grant rv (ppos (cur ts)) ts0 = Ok (d, r) -> exists ty fs, d = DNode ty (FPos (ppos (cur ts)) :: fs)).
+  { intros rv ts0. unfold parse_grant. destruct (privilege ts0) as [[pv a]| | |]; cbn [bind]; try discriminate.
+    destruct (expect (if rv then "FROM" else "TO") a) as [[x b]| | |]; cbn [bind]; try discriminate.
+    destruct (expect_kw "ROLE" b) as [[y c]| | |]; cbn [bind]; try discriminate.
+    destruct (comma_list parse_ident c) as [[roles e]| | |]; cbn [bind]; try discriminate. intros H. inversion H; subst. eauto. }
+  destruct (is_kwlike (cur ts) "GRANT"); [intros H; inversion H as [H1]; exact (G _ _ H1)|].
+  destruct (is_kwlike (cur ts) "REVOKE"); [intros H; inversion H as [H1]; exact (G _ _ H1)|].
+  destruct (is_kwlike (cur ts) "ALTER"); [|discriminate]. cbv zeta.
+  destruct (kis (cur (next ts)) "PROTO").
+  { unfold parse_alter_bundle. destruct (expect "PROTO" (next ts)) as [[x a]| | |]; cbn [bind]; try discriminate.
+    destruct (expect_kw "BUNDLE" a) as [[y b]| | |]; cbn [bind]; try discriminate.
+    destruct (bundle_clause "INSERT" "AlterProtoBundleInsert" b) as [[i c]| | |]; cbn [bind]; try discriminate.
+    destruct (bundle_clause "UPDATE" "AlterProtoBundleUpdate" c) as [[u e]| | |]; cbn [bind]; try discriminate.
+    destruct (bundle_clause "DELETE" "AlterProtoBundleDelete" e) as [[dl f]| | |]; cbn [bind]; try discriminate. intros H. inversion H; subst. eauto. }
+  destruct (is_kwlike (cur (next ts)) "INDEX").
+  { unfold parse_alter_index. destruct (expect_kw "INDEX" (next ts)) as [[x a]| | |]; cbn [bind]; try discriminate.
+    destruct (parse_path a) as [[ids b]| | |]; cbn [bind]; try discriminate.
+    destruct (index_alteration b) as [[al c]| | |]; cbn [bind]; try discriminate. intros H. inversion H; subst. eauto. }
+  destruct (is_kwlike (cur (next ts)) "SEARCH").
+  { unfold parse_alter_search_index. destruct (expect_kw "SEARCH" (next ts)) as [[x a]| | |]; cbn [bind]; try discriminate.
+    destruct (expect_kw "INDEX" a) as [[y b]| | |]; cbn [bind]; try discriminate.
+    destruct (parse_ident b) as [[i c]| | |]; cbn [bind]; try discriminate.
+    destruct (index_alteration c) as [[al e]| | |]; cbn [bind]; try discriminate. intros H. inversion H; subst. eauto. }
+  destruct (other_alter (cur (next ts))); discriminate.
+Qed.
